@@ -252,6 +252,30 @@ func gen(g *vh.Gen) {
 			g.Emit("slow", st, fmt.Sprint(p), strings.Join(parts, ";"), vh.HS(target))
 		}
 	}
+	// a delivery to a mailbox that is already EMPTY when the pass starts (its mail went earlier): the delivery has looked
+	// the mailbox up before the walk collects the mailboxes and takes the mailbox lock after the first callback —
+	// whatever the walk does with empty mailboxes, the fresh mail must be there afterwards
+	for i := 0; i < g.N(8, 300); i++ {
+		p := periods[1+g.Intn(len(periods)-1)]
+		perm := g.Perm(len(pool))
+		target := pool[perm[0]]
+		parts := []string{vh.HS(target) + ":"}
+		for b := 1; b <= g.Intn(3); b++ {
+			if g.Chance(0.3) {
+				parts = append(parts, vh.HS(pool[perm[b]])+":")
+				continue
+			}
+			a := age(g, p, g.Chance(0.6))
+			if a < 0 {
+				a = age(g, p, true)
+			}
+			parts = append(parts, fmt.Sprintf("%s:%d", vh.HS(pool[perm[b]]), a))
+		}
+		g.Shuffle(len(parts), func(i, j int) { parts[i], parts[j] = parts[j], parts[i] })
+		for _, st := range []string{"mem", "file"} {
+			g.Emit("scan", st, fmt.Sprint(p), strings.Join(parts, ";"), "pv/padd:"+vh.HS(target), "-")
+		}
+	}
 	// cancellation at a callback boundary (with and without interference)
 	for i := 0; i < g.N(15, 250); i++ {
 		p := periods[1+g.Intn(len(periods)-1)]
